@@ -605,6 +605,8 @@ func main() {
 	writeFile("SszSchema.lean", genSsz(facts))
 	writeFile("NodeGlue.lean", genNodeGlue(facts))
 	writeFile("Board.lean", genBoard(facts))
+	writeFile("AirGlue.lean", genAirGlue(facts))
+	writeFile("RoundLock.lean", genRoundLock(facts))
 	genFacts(facts)
 	facts["machines"] = ms
 	bz, _ := json.MarshalIndent(facts, "", " ")
